@@ -375,7 +375,9 @@ pub fn float_judge(c: &FloatCase, obs: &mut Obs) -> Result<(), String> {
     Ok(())
 }
 
-pub fn c14(run: &mut Run) {
+/// The generated and enumerated lerp checks themselves (run by the release parent and, with a smaller
+/// budget, by the dbg-profile child: overflow checks and debug assertions ON).
+fn c14_checks(run: &mut Run) {
     run.assume("the crate documents that interpolation arithmetic is done in f32: for integers above 2^24 and for floats the laws are asserted up to 2 ulp(f32) of the larger endpoint; Quat/DQuat delegate to glam's normalising lerp and are not component-wise (not asserted)");
     // x values for the exhaustive 8-bit sweep
     let mut xs: Vec<f32> = (0..=256).map(|k| k as f32 / 256.0).collect();
@@ -503,6 +505,79 @@ pub fn c14(run: &mut Run) {
         run.tier.pick(800_000, 25_000_000),
         float_judge,
     );
+}
+
+/// child mode (dbg build): `core c14-child <tier> <stats-file>`
+pub fn c14_child(args: &[String]) -> i32 {
+    let tier = if args.get(1).map(|s| s.as_str()) == Some("thorough") { "thorough" } else { "quick" };
+    let mut run = Run::from_args(&["C14".to_string(), tier.to_string()]).unwrap();
+    c14_checks(&mut run);
+    let names = ["c14_i8_exhaustive", "c14_u8_exhaustive", "c14_u16_pairs", "c14_i16_pairs", "c14_limits_dense", "c14_wide_ints", "c14_floats_and_vectors"];
+    let subs: serde_json::Map<String, serde_json::Value> = names.iter().map(|n| (n.to_string(), run.sub_summary(n))).filter(|(_, v)| !v.is_null()).collect();
+    let v = run.violation_count();
+    if let Some(p) = args.get(2) {
+        let _ = std::fs::write(p, serde_json::to_string(&json!({"violations": v, "subs": subs})).unwrap());
+    }
+    if v > 0 { 1 } else { 0 }
+}
+
+pub fn c14(run: &mut Run) {
+    c14_checks(run);
+    if run.is_replay() {
+        return;
+    }
+    // ---- the same checks under the debug profile ("never panics": an arithmetic overflow is a panic
+    // wherever overflow checks are on, which is the default for `cargo build` / `cargo test`)
+    let root = mv_engine::verif_root();
+    let dbg_bin = root.join("harness/target/dbg/core");
+    if !dbg_bin.exists() {
+        run.health_fail(format!("debug-profile binary {} missing (run ./run setup)", dbg_bin.display()));
+        return;
+    }
+    let stats = root.join("work").join(format!("c14-dbg-{}.json", std::process::id()));
+    let _ = std::fs::create_dir_all(root.join("work"));
+    let t0 = std::time::Instant::now();
+    let child = std::process::Command::new(&dbg_bin).arg("c14-child").arg(run.tier.name()).arg(&stats).env("VERIF_SEED", run.seed.to_string()).env("VERIF_SCALE", "25").output();
+    match child {
+        Err(e) => run.health_fail(format!("cannot run {}: {e}", dbg_bin.display())),
+        Ok(o) => {
+            for l in String::from_utf8_lossy(&o.stdout).lines() {
+                if l.starts_with("VIOLATION ") || l.starts_with("  check=") {
+                    println!("{l}");
+                }
+            }
+            let code = o.status.code().unwrap_or(2);
+            if code == 1 {
+                run.note_external_violation("c14_debug_profile", "violation found by the debug-profile leg (see VIOLATION line above)");
+            } else if code != 0 {
+                run.health_fail(format!("debug-profile leg exited with {code}: {}", String::from_utf8_lossy(&o.stderr).chars().take(600).collect::<String>()));
+            }
+            if let Ok(st) = std::fs::read_to_string(&stats) {
+                if let Ok(v) = serde_json::from_str::<serde_json::Value>(&st) {
+                    let (mut cases, mut distinct, mut samples) = (0u64, 0u64, vec![]);
+                    if let Some(m) = v["subs"].as_object() {
+                        for (k, s) in m {
+                            cases += s["cases"].as_u64().unwrap_or(0);
+                            distinct += s["distinct_nontrivial"].as_u64().unwrap_or(0);
+                            if let Some(x) = s["samples"].as_array().and_then(|a| a.first()) {
+                                samples.push(json!({"sub": k, "case": x}));
+                            }
+                        }
+                    }
+                    run.external(
+                        "c14_debug_profile",
+                        "the same enumerations and proptest checks, dbg build (child process)",
+                        "every sub-check of this property run again by the dbg build of this program (opt-level 1, debug assertions and overflow checks ON; proptest budgets at 25 %): a lerp that overflows an intermediate only panics there; counts are the child's own (cases, distinct non-trivial) summed over its sub-checks",
+                        cases,
+                        distinct,
+                        samples,
+                        t0.elapsed().as_secs_f64(),
+                    );
+                }
+            }
+            let _ = std::fs::remove_file(&stats);
+        }
+    }
     crate::fuzzdrv::campaign(run, "fz_c14", 3_200_000);
     crate::fuzzdrv::campaign(run, "fz_c14f", 3_200_000);
 }
